@@ -131,7 +131,7 @@ ProbeDocs == <<
          JObj(<<cA>>, <<JStr(nDotSp)>>), JArr(<<JInt(8)>>),
          JInt(1), JStr(cA), JObj(<<cA>>, <<JInt(1)>>), JNull>>),
   JArr(<<JObj(<<cA, cB>>, <<JInt(1), JInt(1)>>), JObj(<<cA>>, <<JStr(cA)>>), JObj(<<cA, cB>>, <<JInt(100), JStr(nAB)>>),
-         JArr(<<JInt(0), JInt(1), JInt(2)>>), JObj(<<cB>>, <<JBool(TRUE)>>), JObj(<<cA>>, <<JNull>>), JObj(<<cA>>, <<F(1, 2)>>), JInt(1),
+         JArr(<<JInt(0), JInt(1), JInt(2)>>), JArr(<<>>), JObj(<<>>, <<>>), JObj(<<cB>>, <<JBool(TRUE)>>), JObj(<<cA>>, <<JNull>>), JObj(<<cA>>, <<F(1, 2)>>), JInt(1),
          JObj(<<cA>>, <<JInt(230)>>), JObj(<<cA>>, <<F(3, -1)>>), JObj(<<cA>>, <<F(23, 1)>>)>>),
   JObj(<<nEmpty, nDigit, nUnder, cA, nC1b, nLS, nC1, nBmp>>, <<JInt(1), JArr(<<JInt(5)>>), JObj(<<cA>>, <<JObj(<<cA>>, <<JInt(1)>>)>>), JObj(<<cA, cB>>, <<JStr(nSpace), JStr(nEmpty)>>),
                                                      JArr(<<JInt(1)>>), JObj(<<cA, nLS>>, <<JStr(nLS), JInt(9)>>), JObj(<<nC1b>>, <<JInt(2)>>), JInt(3)>>) >>
